@@ -126,7 +126,9 @@ use crate::{
 ///                 the line is ignored.
 /// ```
 pub struct Parser<'a> {
-    lexers: Vec<(Lexer<'a>, Option<PathBuf>)>,
+    /// The lexer of each file being read, its path, and the origin that was in effect in the
+    /// including file when the `$INCLUDE` entry was read (`None` for the outermost file).
+    lexers: Vec<(Lexer<'a>, Option<PathBuf>, Option<Option<Name>>)>,
     origin: Option<Name>,
 }
 
@@ -144,7 +146,7 @@ impl<'a> Parser<'a> {
             origin.set_fqdn(true);
         }
         Self {
-            lexers: vec![(Lexer::new(input), path)],
+            lexers: vec![(Lexer::new(input), path, None)],
             origin,
         }
     }
@@ -159,7 +161,7 @@ impl<'a> Parser<'a> {
         let mut state = State::StartLine;
         let mut stack = self.lexers.len();
 
-        'outer: while let Some((lexer, path)) = self.lexers.last_mut() {
+        'outer: while let Some((lexer, path, _)) = self.lexers.last_mut() {
             while let Some(t) = lexer.next_token()? {
                 state = match state {
                     State::StartLine => {
@@ -242,7 +244,8 @@ impl<'a> Parser<'a> {
 
                             let input = fs::read_to_string(&include)?;
                             let lexer = Lexer::new(input);
-                            self.lexers.push((lexer, Some(include)));
+                            self.lexers
+                                .push((lexer, Some(include), Some(cx.origin.clone())));
                             stack += 1;
                             state = State::StartLine;
                             continue 'outer;
@@ -319,7 +322,11 @@ impl<'a> Parser<'a> {
             }
 
             stack -= 1;
-            self.lexers.pop();
+            // RFC 1035 5.1: "a $INCLUDE entry never changes the relative origin of the parent file,
+            // regardless of changes to the relative origin made within the included file"
+            if let Some((_, _, Some(origin))) = self.lexers.pop() {
+                cx.origin = origin;
+            }
         }
 
         //
